@@ -18,6 +18,8 @@
 (* (state, event) and the trace spec is linear.  A rejected event does not *)
 (* stop validation: the diagnostic is appended to TLC register 1, the rest *)
 (* of that history is skipped and validation resumes at the next reset, so *)
+(* (An accepted step may carry an advisory `note` field; the first 20 are  *)
+(* printed as `NOTE {json}` lines and never count as a rejection.)         *)
 (* that the remainder of the trace is still checked.                       *)
 (* The POSTCONDITION prints one `REJECT {json}` line per rejected history  *)
 (* and one `DONE <next line> <#histories> <#events applied>` line.         *)
@@ -40,6 +42,7 @@ TKInit == /\ l = 1
           /\ TLCSet(2, 1)
           /\ TLCSet(3, 0)
           /\ TLCSet(4, 0)
+          /\ TLCSet(5, <<>>)
 
 TKNext ==
   /\ l <= N
@@ -53,6 +56,9 @@ TKNext ==
               THEN /\ l' = l + 1
                    /\ st' = r.st
                    /\ TLCSet(4, TLCGet(4) + 1)
+                   /\ IF "note" \in DOMAIN r /\ r.note # "" /\ Len(TLCGet(5)) < 20
+                      THEN TLCSet(5, Append(TLCGet(5), [line |-> l, note |-> r.note]))
+                      ELSE TRUE
               ELSE /\ TLCSet(1, Append(TLCGet(1), [line |-> l, exp |-> r.exp]))
                    /\ l' = NextReset(l + 1)
                    /\ st' = InitState
@@ -62,5 +68,6 @@ TKSpec == TKInit /\ [][TKNext]_<<l, st>>
 
 TKPost ==
   /\ \A i \in 1..Len(TLCGet(1)) : PrintT("REJECT " \o ToJson(TLCGet(1)[i]))
+  /\ \A i \in 1..Len(TLCGet(5)) : PrintT("NOTE " \o ToJson(TLCGet(5)[i]))
   /\ PrintT("DONE " \o ToString(TLCGet(2)) \o " " \o ToString(TLCGet(3)) \o " " \o ToString(TLCGet(4)))
 =============================================================================
